@@ -155,20 +155,29 @@ GRAMMAR_MF = "Model: imports*=Import defs+=Def refs*=Ref;\nImport: 'import' impo
 MF_FILES = {'main.m': 'import "lib.m"\ndef a def b ref a ref l1\n', 'lib.m': 'import "lib2.m"\ndef l1 def l2 ref l2 ref k\n', 'lib2.m': 'def k\n'}
 
 
-def corpus():
+# thorough tier only: larger models (more write calls, i.e. more fault points per run)
+MODELS_MORE = [' '.join('def p%d { def q%d { def r%d } }' % (k, k, k) for k in range(12)) + ' ' + ' '.join('ref p%d' % k for k in range(12)),
+               ' '.join('def w%d' % k for k in range(120))]
+
+
+def corpus(tier='quick'):
     out = [('any', 'dot', 'mf', 'mf')]
     for gi, g in enumerate(GRAMMARS):
         out.append(('textX', 'dot', gi, None))
         out.append(('textX', 'PlantUML', gi, None))
     for mi in range(len(MODELS)):
         out.append(('any', 'dot', 2, mi))
+    if tier == 'thorough':
+        for mi in range(len(MODELS), len(MODELS) + len(MODELS_MORE)):
+            out.append(('any', 'dot', 2, mi))
     return out
 
 
 def run_case(ctx, ci, rep_base):
     from textx import generator_for_language_target, metamodel_for_language, metamodel_from_str
     install()
-    lang, target, gi, mi = corpus()[ci]
+    lang, target, gi, mi = corpus(ctx.tier)[ci]
+    ALLM = MODELS + MODELS_MORE
     tmp = tempfile.mkdtemp(prefix='tvc31_')
     try:
         src = os.path.join(tmp, 'src')
@@ -199,7 +208,7 @@ def run_case(ctx, ci, rep_base):
             mm = metamodel_from_str(GRAMMARS[gi])
             mfile = os.path.join(src, 'model%d.m' % mi)
             with open(mfile, 'w') as f:
-                f.write(MODELS[mi])
+                f.write(ALLM[mi])
             model = mm.model_from_file(mfile)
             base = 'model%d.dot' % mi
         tpath = os.path.join(out, base)
@@ -220,7 +229,7 @@ def run_case(ctx, ci, rep_base):
             model2 = mm.model_from_file(os.path.join(src2, os.path.basename(gfile)))
         else:
             with open(os.path.join(src2, os.path.basename(mfile)), 'w') as f:
-                f.write('def other_first ' + MODELS[(mi + 1) % len(MODELS)])
+                f.write('def other_first ' + ALLM[(mi + 1) % len(ALLM)])
             mm2 = mm
             model2 = mm.model_from_file(os.path.join(src2, os.path.basename(mfile)))
         child_status = [None]
@@ -356,7 +365,7 @@ def run_case(ctx, ci, rep_base):
 
 
 def run(ctx):
-    cs = corpus()
+    cs = corpus(ctx.tier)
     ctx.count('generators', 0)
     for ci in ctx.indices(len(cs), 'corpus', exhaustive=True):
         run_case(ctx, ci, {})
@@ -365,7 +374,7 @@ def run(ctx):
 
 
 def one(ctx, i, rep=None):
-    run_case(ctx, i % len(corpus()), rep or {})
+    run_case(ctx, i % len(corpus(ctx.tier)), rep or {})
 
 
 def replay(ctx, rep):
